@@ -198,6 +198,8 @@ type grounder struct {
 	sks  []skolem
 	refs []string // reference terms of the goal (see indexTerms)
 	n    int
+	// number of genuine skolem constants (the first nskolem entries of sks; the rest are index terms)
+	nskolem int
 }
 
 // usedAsRef: the bound variable v occurs as the index of a heap family constant, `(select HEAP v)`: it ranges over
@@ -347,15 +349,28 @@ func (g *grounder) indexTerms(x *sx) {
 					break
 				}
 			}
-			if mentions && len(g.sks) < 12 {
-				dup := false
+			add := func(t string) {
+				if len(g.sks) >= 12 || t == "" || (t[0] >= '0' && t[0] <= '9') || strings.HasPrefix(t, "(- ") {
+					return
+				}
 				for _, sk := range g.sks {
-					if sk.name == s {
-						dup = true
+					if sk.name == t {
+						return
 					}
 				}
-				if !dup {
-					g.sks = append(g.sks, skolem{s, "Int"})
+				g.sks = append(g.sks, skolem{t, "Int"})
+			}
+			if mentions {
+				add(s)
+			} else if g.nskolem == 0 {
+				// a goal without bound variables (an index obligation inside a loop body, say): its own positions are
+				// where the element clauses of the hypotheses are needed. Clauses are written over positions relative to
+				// the slice (`s[k]` is element off+k of the array), so the addends of `off + k` are candidates too.
+				add(s)
+				if idx.head() == "+" {
+					for _, c := range idx.list[1:] {
+						add(c.String())
+					}
 				}
 			}
 		}
@@ -533,6 +548,7 @@ func groundQuery(q string) (string, bool) {
 	g := &grounder{}
 	goal := g.skolemize(gx.list[1].list[1], true)
 	nsk := len(g.sks)
+	g.nskolem = nsk
 	g.indexTerms(goal)
 	// parse the quantified facts once
 	quant := map[int]*sx{}
